@@ -154,6 +154,13 @@ def gen_cases(chk):
         periodic = rng.random() < 0.5
         nc = rng.randint(max(2, p + 1 if periodic else 2), 16)
         combos.append((nc, p, periodic, rng.choice(['raw', 'raw', 'rawuniform'])))
+    # almost uniform grids and tiny strongly non-uniform ones (a 'uniform grid' shortcut decided with default tolerances)
+    for j, p in enumerate([1, 2, 3, 4, 5]):
+        combos.append((rng.randint(6, 12), p, True, 'rawgentle'))
+        combos.append((16, p, True, 'rawtinyjit'))
+        if j % 2 == 0:
+            combos.append((rng.randint(6, 12), p, False, 'rawgentle'))
+            combos.append((12, p, False, 'rawtinyjit'))
     cases = []
     for (nc, p, periodic, kind) in combos:
         spd = make_space(rng, nc, p, periodic, kind)
